@@ -95,4 +95,9 @@ CLAIMED = {
   "note": "Trusted: model predicate written from the property statement.",
   "technique": "model-based property-based testing with idempotence law",
  },
+ "C19": {
+  "text": "Generated trees mixing HTML names in any letter case with no namespace, the real XHTML namespace, MathML, SVG and foreign namespaces, plus single detached nodes and text under a document node, under generated parameters (indentation, suppress, CDATA-section elements): never a panic; Ok output starts with the doctype and an independent HTML-flavoured tokenizer aligned with the model confirms the unprefixed / never-self-closed / end-tag-iff-not-void rules, the default namespace in force for MathML/SVG, the escaping rules for text and attribute values, and refusal of PIs containing '>'.",
+  "note": "Trusted: htmltok tokenizer and the aligner; one recorded known finding (the https look-alike of the XHTML URI, pinned by the library's own tests) is excluded by construction and counted. Spelling of foreign-namespace elements is not asserted (not stated).",
+  "technique": "property-based testing with an independent tokenizer aligned against the generator's model",
+ },
 }
